@@ -35,7 +35,7 @@ def cardText (many cond : Bool) : Text :=
 
 def endText (e : EndM) : Text :=
   cardText e.many e.cond ++ ' ' :: e.kind ++ [' ', '('] ++ joinWith [',', ' '] e.keys ++ [')'] ++
-    (if e.phrase.isEmpty then [] else " PHRASE '".toList ++ e.phrase ++ ['\''])
+    (if e.phrase.isEmpty then [] else " PHRASE '".toList ++ escapeQ e.phrase ++ ['\''])
 
 /-- `serialize_value(getattr(instance, name), ty)`; `none` = the call raises (unknown type: KeyError) -/
 def cellText (u : UC) (ty : Name) (v : Option Val) : Option Text :=
@@ -90,7 +90,7 @@ def modelledTemplates : List (String × List String) := [
   ("serialize_value", ["BOOLEAN", "INTEGER", "REAL", "STRING", "", "UNIQUE_ID", "BOOLEAN", "%d", "INTEGER", "%d", "REAL", "%f", "STRING", "'%s'", "'", "''", "UNIQUE_ID", "\"%s\""]),
   ("serialize_instance", ["INSERT INTO %s VALUES (", "\x0a    ", ", -- %s : %s", " -- %s : %s", "\x0a);\x0a"]),
   ("serialize_instances", [""]),
-  ("serialize_association", ["%s %s (%s)", ", ", " PHRASE '%s'", "%s %s (%s)", ", ", " PHRASE '%s'", "CREATE ROP REF_ID %s FROM %s TO %s;\x0a"]),
+  ("serialize_association", ["%s %s (%s)", ", ", " PHRASE '%s'", "'", "''", "%s %s (%s)", ", ", " PHRASE '%s'", "'", "''", "CREATE ROP REF_ID %s FROM %s TO %s;\x0a"]),
   ("serialize_class", ["%s %s", "CREATE TABLE %s (\x0a    ", ",\x0a    ", "\x0a);\x0a"]),
   ("serialize_unique_identifiers", ["", ", ", "CREATE UNIQUE INDEX %s ON %s (%s);\x0a"]),
   ("serialize_classes", [""]),
